@@ -154,7 +154,7 @@ std::string run(const Args& a) {
 			out += " | RELOAD3 " + observeShape(re, rs, false);
 		}
 		return out;
-	}, 120);
+	}, 900);
 }
 Reg r1("c13.run", run);
 } // namespace
